@@ -30,7 +30,7 @@ class BSpline2D(BSpline):
         """
         Evaluate the B-Spline at point (x, y).
 
-        The support of this function is the half-open interval [tx[0], tx[-1]) x [ty[0], ty[-1]).
+        The support of this function is the box [tx[0], tx[-1]] x [ty[0], ty[-1]].
 
         :param x: The coordinate of the point at which to evaluate.
         :param y: The ordinate of the point at which to evaluate.
